@@ -1039,6 +1039,11 @@ def _check(constraints, timeout_ms, aux=False):
         s.add(c)
     t = time.time()
     r = s.check()
+    if str(r) == "unknown" and not aux and os.environ.get("VERIF_CVC5_FALLBACK", "1") != "0":
+        # second back end before giving up: only a refutation (unsat) is taken from it, a sat answer stays inconclusive (no model transfer)
+        if _cvc5_verdict(s, int(timeout_ms)) == "unsat":
+            r = "unsat"
+            CTX.stats["decided_by_cvc5"] = CTX.stats.get("decided_by_cvc5", 0) + 1
     dt = time.time() - t
     CTX.stats["solver_s"] += dt
     if aux:
@@ -1055,6 +1060,29 @@ def _check(constraints, timeout_ms, aux=False):
 
 XCHECK_EVERY = int(os.environ.get("VERIF_CROSSCHECK_EVERY", "0") or 0)
 _XCOUNT = 0  # per worker process: real solver calls so far
+
+
+def _cvc5_verdict(solver, tlimit_ms):
+    try:
+        import cvc5
+
+        slv = cvc5.Solver()
+        slv.setOption("tlimit-per", str(int(tlimit_ms)))
+        slv.setLogic("ALL")
+        p = cvc5.InputParser(slv)
+        p.setStringInput(cvc5.InputLanguage.SMT_LIB_2_6, solver.to_smt2(), "q")
+        sm = p.getSymbolManager()
+        res = None
+        while True:
+            c = p.nextCommand()
+            if c.isNull():
+                break
+            out = c.invoke(slv, sm)
+            if c.getCommandName() == "check-sat":
+                res = str(out).strip()
+        return res
+    except Exception:
+        return None
 
 
 def _crosscheck(solver, verdict):
